@@ -16,9 +16,12 @@ import H3.Spec.Output
     * `outlog <role> <cfg> <harness summary>`: used by the Python projection — the SPEC side:
       every per-stream byte log the harness printed is judged by `H3.Spec.Output.checkStream`
       (the RFC segmenter, not h3's encoder) and the summary is re-rendered in the form the
-      `out` model prints: verdict first, then literal logs (grease off), their shape with
-      reserved ids masked (grease on, unlimited credit), or nothing (grease on, limited credit:
-      the sizes of the random ids decide what fits the credit). -/
+      `out` model prints: verdict first, then literal logs (grease off) or their shape with
+      the reserved ids masked (grease on, with and without credit limits).  Under credit limits
+      the sizes of the random ids decide what fits the credit: the model runs with draws whose
+      ids are 8-byte varints (`bigDraw`), which is what the real draws give but for a chance of
+      ~2^-32 each (and the harness makes the draws a function of the case line), and a frame
+      that is cut in the middle is rendered without its random bytes (`shapeFrames`). -/
 namespace H3.Drv.C14
 open H3.Drv H3.Varint H3.WriteBuf H3.SendSide H3.Spec.Output
 
@@ -262,18 +265,52 @@ def verdict (cx : Ctx) (ls : List SLog) : String :=
 
 def idTok (x : Nat) : String := if isReserved x then "G" else toString x
 
-/-- frames of a log in readable form, reserved identifiers masked -/
+/-- does `w` begin with the first bytes of an 8-byte varint that is not all there?  Every
+    identifier h3 sends that is not of the reserved form fits 4 bytes, and a reserved one is
+    `31·draw + 33` with `draw` uniform below ~2^57, i.e. an 8-byte varint (but for a chance of
+    ~2^-32 per draw): such a fragment is a piece of a reserved identifier and consists of random
+    bytes, so only its size is printed. -/
+def partialWide (w : Bytes) : Bool :=
+  match w with
+  | b :: _ => decide (b ≥ 0xc0) && decide (w.length < 8)
+  | [] => false
+
+/-- a fragment of an identifier: `g<k>` = `k` bytes of a reserved (8-byte) identifier, anything
+    else (deterministic) literally -/
+def partialIdTok (w : Bytes) : String :=
+  if partialWide w then s!"g{w.length}" else toHex w
+
+/-- identifier/value pairs of a SETTINGS payload that may be cut anywhere: the complete pairs
+    with reserved identifiers masked, then what there is of the pair the cut falls into (`~…`) -/
+def shapePairs : Nat → Bytes → List String
+  | 0, _ => []
+  | fuel+1, p =>
+    if p.isEmpty then [] else
+    match rfcDecode p with
+    | none => [s!"~{partialIdTok p}"]
+    | some (id, r) =>
+      match rfcDecode r with
+      | none => [s!"{idTok id}=~{toHex r}"]
+      | some (v, r') => s!"{idTok id}={v}" :: shapePairs fuel r'
+
+/-- frames of a log in readable form, reserved identifiers masked.  A last frame that is not all
+    there begins with `~`: `~g<k>` a piece of a reserved type, `~<type>:<hex>` no complete length
+    yet, `~<type>:<declared length>:<payload bytes present>` (SETTINGS: `~S:<declared
+    length>:<bytes present>(<pairs>)`, because the payload holds the reserved setting id). -/
 def shapeFrames : Nat → Bytes → List String
   | 0, _ => []
   | fuel+1, w =>
     if w.isEmpty then [] else
     match rfcDecode w with
-    | none => [s!"~{toHex w}"]
+    | none => [s!"~{partialIdTok w}"]
     | some (ty, r1) =>
       match rfcDecode r1 with
       | none => [s!"~{idTok ty}:{toHex r1}"]
       | some (len, r2) =>
-        if r2.length < len then [s!"~{idTok ty}:{len}:{toHex r2}"]
+        if r2.length < len then
+          if ty = 4 then
+            [s!"~S:{len}:{r2.length}(" ++ ";".intercalate (shapePairs (r2.length + 1) r2) ++ ")"]
+          else [s!"~{idTok ty}:{len}:{toHex r2}"]
         else
           let p := r2.take len
           let one :=
@@ -286,29 +323,30 @@ def shapeFrames : Nat → Bytes → List String
 
 def shapeStream (sid : Nat) (w : Bytes) : String :=
   if sid % 4 < 2 then "/".intercalate (shapeFrames (w.length + 1) w)
+  else if w.isEmpty then "-"
   else match rfcDecode w with
-    | none => s!"~{toHex w}"
+    | none => s!"~{partialIdTok w}"
     | some (ty, r) =>
       if ty = 0 || isReserved ty then
         "/".intercalate (s!"T{idTok ty}" :: shapeFrames (r.length + 1) r)
       else s!"T{ty}:{toHex r}"
 
+/-- `literal`: grease off, nothing is random, the byte logs are compared as they are.  `shape`:
+    grease on (with or without credit limits): frame kinds, order, lengths, payloads, FIN and
+    mid-write markers per stream, the three random reserved identifiers masked. -/
 inductive Mode where
-  | literal | shape | verdictOnly
+  | literal | shape
 deriving DecidableEq
 
 def renderStreams (mode : Mode) (ls : List SLog) : List String :=
   (ls.filter (fun l => !l.tx.isEmpty || l.fin || l.writing)).map (fun l =>
     let body := match mode with
       | .shape => s!"{l.sid}:sh={shapeStream l.sid l.tx}"
-      | _ => s!"{l.sid}:tx={toHex l.tx}"
+      | .literal => s!"{l.sid}:tx={toHex l.tx}"
     body ++ (if l.fin then ",fin" else "") ++ (if l.writing then ",writing" else ""))
 
 def renderAll (mode : Mode) (cx : Ctx) (ls : List SLog) (pending : String) : String :=
-  let v := verdict cx ls
-  match mode with
-  | .verdictOnly => v
-  | _ => v ++ " | " ++ " ".intercalate (renderStreams mode ls ++ [pending])
+  verdict cx ls ++ " | " ++ " ".intercalate (renderStreams mode ls ++ [pending])
 
 /-! ### configuration -/
 
@@ -345,10 +383,13 @@ def parseCfg (s : String) : Option ScCfg :=
           | "wc" => some { c with wc := some n }
           | _ => none) base
 
-def modeOf (c : ScCfg) : Mode :=
-  if !c.cfg.grease then .literal
-  else if c.uc.isNone && c.bc.isNone && c.wc.isNone then .shape
-  else .verdictOnly
+def modeOf (c : ScCfg) : Mode := if c.cfg.grease then .shape else .literal
+
+/-- The draw the model side uses for every `grease()` call: any admissible draw (`<
+    GREASE_RANGE_END`) whose identifier is an 8-byte varint (`greaseId d ≥ 2^30`), which is what
+    the real draws give (but for a chance of ~2^-32 each), so that the byte counts under write
+    credit agree; the value itself is masked in the rendering. -/
+def bigDraw : Nat := 2^40
 
 /-- the client builder has no `enable_webtransport`/`max_webtransport_sessions` -/
 def effectiveCfg (server : Bool) (c : Config) : Config :=
@@ -411,6 +452,10 @@ structure Sc where
   lastAccepted : Option Nat := none
   sentClosing : Option Nat := none
   peerCtl : Nat := 0
+  /-- the peer's unidirectional streams that have delivered a first chunk; the one that began
+      with stream type 00 -/
+  uniSeen : List Nat := []
+  peerCtlSid : Option Nat := none
   /-- an unread chunk on the peer's control stream carries a GOAWAY frame -/
   peerGoawayUnread : Bool := false
   /-- the peer's GOAWAY has been processed (`recv_closing`) -/
@@ -418,8 +463,8 @@ structure Sc where
   /-- requests handed out by `accept` so far -/
   accepted : Nat := 0
   driving : Bool := false
-  /-- `SharedState.closing`, set by the first GOAWAY this endpoint sends: `send_request`
-      then fails with `RemoteClosing` before opening a stream -/
+  /-- `SharedState.closing`, set by the first GOAWAY this endpoint sends (and by the peer's,
+      see `recvClosing`): `send_request` then fails with `RemoteClosing` before opening a stream -/
   closing : Bool := false
   /-- the last `SendRequest` was dropped: the connection error H3_NO_ERROR ends `wait_idle` -/
   sndDropped : Bool := false
@@ -463,10 +508,15 @@ def pollStream : Nat → Sc → Nat → Sc
           let taken := logLen s' sid - before
           pollStream fuel (s'.setCredit sid (c - taken)) sid
 
+/-- every task that waits in a write is woken by a grant and polls its stream again.  Not so the
+    grease stream: it is written by `poll_grease_stream`, which `poll_control` calls only after it
+    has taken a frame out of the peer's control stream (`controlPolled`). -/
 def pollAll (s : Sc) : Sc :=
   match s.m with
   | none => s
-  | some m => (m.streams.map (·.1)).foldl (fun s sid => pollStream 4 s sid) s
+  | some m =>
+    ((m.streams.filter (fun e => e.2.kind != .greaseStream)).map (·.1)).foldl
+      (fun s sid => pollStream 4 s sid) s
 
 def takeCredit (c : Option Nat) : Option (Option Nat) :=
   match c with
@@ -486,7 +536,7 @@ def progressBuild : Nat → Sc → Sc
         let sid := uniId s.server s.nextUni
         progressBuild fuel ({ s with uc := uc', opened := s.opened + 1, nextUni := s.nextUni + 1 }.mkStream sid)
     else
-      match init s.server s.cfg 0 with
+      match init s.server s.cfg bigDraw with
       | none => { s with initFailed := true }
       | some m => { s with m := some m }
 
@@ -502,23 +552,35 @@ def Sc.updTask (s : Sc) (name : String) (f : TaskS → TaskS) : Sc :=
 
 def Sc.spawn (s : Sc) (t : TaskS) : Sc := { s with tasks := s.tasks ++ [t] }
 
-/-- `poll_control` reached with an unread control frame: `poll_grease_stream` (only reached
-    with unlimited credit in the shape mode) -/
+/-- `poll_grease_stream`, one call: `poll_open_send` (needs uni-stream credit, `Pending`
+    otherwise), `send_data((StreamType::grease(), Frame::Grease))`, `poll_ready` (as far as the
+    write credit goes, `Pending` otherwise), `poll_finish`.  Where it returned `Pending` it goes on
+    at the next call — which comes with the next control frame, not with the grant. -/
+def pollGreaseStream (s : Sc) : Sc :=
+  match s.m with
+  | none => s
+  | some m =>
+    if m.greaseStreamFlag then
+      match takeCredit s.uc with
+      | none => s
+      | some uc' =>
+        let sid := uniId s.server s.nextUni
+        let s := ({ s with uc := uc', nextUni := s.nextUni + 1 }.mkStream sid).mstep
+          (.greaseStream sid bigDraw bigDraw)
+        pollStream 4 s sid
+    else
+      match m.streams.find? (fun e => e.2.kind == .greaseStream) with
+      | some (sid, _) => pollStream 4 s sid
+      | none => s
+
+/-- `poll_control` reached with unread control frames: each is taken out, and after each
+    `poll_grease_stream` is called once (calls that follow each other with nothing granted in
+    between find what the first one left) -/
 def controlPolled (s : Sc) : Sc :=
   if s.peerCtl = 0 then s
   else
-    let s := { s with peerCtl := 0, recvClosing := s.recvClosing || s.peerGoawayUnread,
-                      peerGoawayUnread := false }
-    match s.m with
-    | none => s
-    | some m =>
-      if m.greaseStreamFlag then
-        match takeCredit s.uc with
-        | none => s
-        | some uc' =>
-          let sid := uniId s.server s.nextUni
-          ({ s with uc := uc', nextUni := s.nextUni + 1 }.mkStream sid).mstep (.greaseStream sid 0 0)
-      else s
+    pollGreaseStream { s with peerCtl := 0, recvClosing := s.recvClosing || s.peerGoawayUnread,
+                              peerGoawayUnread := false }
 
 /-- server `shutdown(n)`: the exclusive id `n` requests past the largest accepted one (after
     fix a45d1c8), sent only when it lowers the id announced before.  The choice of the id is
@@ -581,7 +643,7 @@ def execCmd (s : Sc) (t : TaskS) (cmd : String) (hint : Option Bytes) : Sc :=
      | _ => s)
   | .snd =>
     (match op with
-     | "R" => if s.closing then s else setBusy s (.openBidi hint)
+     | "R" => if s.closing || s.recvClosing then s else setBusy s (.openBidi hint)
      | "dr" => die { s with sndDropped := true, driving := false }
      | _ => s)
   | .resolver sid =>
@@ -607,7 +669,7 @@ def execCmd (s : Sc) (t : TaskS) (cmd : String) (hint : Option Bytes) : Sc :=
        (match hexOf arg with
         | some b => setBusy (s.mstep (.sendData sid b)) (.stream sid)
         | none => s)
-     | "fi" => setBusy (s.mstep (.finish sid 0)) (.stream sid)
+     | "fi" => setBusy (s.mstep (.finish sid bigDraw)) (.stream sid)
      | "dr" => die s
      | _ => s)
 
@@ -630,6 +692,7 @@ def resume (s : Sc) (t : TaskS) (b : BusyOn) : Option Sc :=
       some (if t.kind == .snd then s.spawn { name := s!"q{sid}", kind := .req sid } else s)
     else none
   | .accept =>
+    let polled := decide (s.peerCtl > 0)
     let s := controlPolled s
     (match tryAccept (s.incoming.length + 1) s with
      | some (s, sid) => some ((free s).spawn { name := s!"q{sid}", kind := .resolver sid })
@@ -640,6 +703,8 @@ def resume (s : Sc) (t : TaskS) (b : BusyOn) : Option Sc :=
          if skip then some (free s)
          else some (({ s with sentClosing := some id, closing := true }.mstep (.goaway id)).updTask t.name
                 (fun t => { t with busy := some ("A", .stream (uniId s.server 0)) }))
+       -- still waiting, but `poll_control` has taken frames out (and polled the grease stream)
+       else if polled then some s
        else none)
   | .openBidi hint =>
     (match takeCredit s.bc with
@@ -719,10 +784,27 @@ def applyOp (s : Sc) (op : String) : Option Sc :=
               else if !s.known.contains sid then some s
               else if sid % 4 < 2 then some { s with peerData := s.peerData ++ [sid] }
               else
-                -- a chunk on the peer's control stream: the generator sends the stream type
-                -- together with one complete frame, later chunks are one frame each
-                some { s with peerCtl := s.peerCtl + 1,
-                              peerGoawayUnread := s.peerGoawayUnread || b.head? == some 7 }
+                -- a chunk on a unidirectional stream of the peer: the generator sends the stream
+                -- type together with one complete frame, later chunks are one frame each.  Only
+                -- the control stream (type 00) counts, and on it the frames `poll_control` hands
+                -- out (SETTINGS, GOAWAY, CANCEL_PUSH, MAX_PUSH_ID; unknown types are skipped
+                -- inside `FrameStream::poll_next`)
+                let first := !s.uniSeen.contains sid
+                let s := if first then
+                    { s with uniSeen := s.uniSeen ++ [sid],
+                             peerCtlSid := if s.peerCtlSid.isNone && b.head? == some 0 then some sid
+                                           else s.peerCtlSid }
+                  else s
+                if s.peerCtlSid != some sid then some s
+                else
+                  let frame := if first then b.drop 1 else b
+                  match frame.head? with
+                  | none => some s
+                  | some ty =>
+                    if ty == 4 || ty == 7 || ty == 3 || ty == 0xd then
+                      some { s with peerCtl := s.peerCtl + 1,
+                                    peerGoawayUnread := s.peerGoawayUnread || ty == 7 }
+                    else some s
             | _, _ => none)
          | none => none)
       | 'f' :: r => (natOf r).map (fun _ => s)
